@@ -147,6 +147,17 @@ CHECKS = {
             'form of every n; out-of-range arguments must give an error within the step budget.',
             'Trusted: Fraction arithmetic, two independent Roman evaluators. The 2^40 hex range is boundary-exhaustive '
             'only.', 'DESIGN.md §5 C17'),
+    'C02': ('explicit-state exploration of operation histories on a real parser with a differential oracle (fresh parser '
+            'with the same bindings), breadth-first closure of the reachable canonical heap fingerprints (each expansion '
+            'replayed in a forked child), repetition ladders for retained traceback/frame objects, and exhaustive '
+            'host-value immutability sweeps; ' + K1,
+            'All histories of <= 2/3 operations over a 25-operation alphabet (19 residue-leaving formulas incl. failing '
+            'ones and raising callbacks, rebinding, listener on/off) are followed by 16 probes and compared with a fresh '
+            'parser, with debug off and on; the set of heap states reachable by parse operations is searched to a fixpoint '
+            '(93 states on the current tree), which decides the unbounded-repetition clause; every documented function x '
+            'arity <= 2/3 x list-valued argument position is checked for deep-equality of host values before/after.',
+            'Trusted: the heap fingerprint (stdlib objects opaque); fork() to restore a state; clock/random seams. PLY '
+            'leftovers are part of the state key, not of the oracle.', 'DESIGN.md §5 C02'),
 }
 
 NOT_YET = 'check not built yet in this session (see DESIGN.md §5 for the planned bounded-exhaustive check)'
